@@ -575,7 +575,7 @@ def input_tag(opts: dict, fails) -> str:
             need[k] = v
     if not need and not fails({}):
         need = dict(opts)
-    return ','.join(f'{k}={"+".join(v) if isinstance(v, tuple) else v}' for k, v in sorted(need.items())) or 'any'
+    return ','.join(f'{k}={"+".join(map(str, v)) if isinstance(v, tuple) else v}' for k, v in sorted(need.items())) or 'any'
 
 
 # ================================================================================================ tracing / correspondence
@@ -1333,7 +1333,7 @@ def run(ck: Ck) -> None:
             what = f'BSP() does not return within {TRIAL_LIMIT_S} s'
         except Exception as e:      # noqa: BLE001
             what = f'BSP() raises {type(e).__name__}: {e}'
-        tagk = ','.join(f'{k}={"+".join(v) if isinstance(v, tuple) else v}' for k, v in sorted(opts.items())) or 'default'
+        tagk = ','.join(f'{k}={"+".join(map(str, v)) if isinstance(v, tuple) else v}' for k, v in sorted(opts.items())) or 'default'
         ck.violation(f'read-fails|input:{tagk}', what, {'input': {'opts': opts, 'seed': seed}, 'cycles': [],
                                                         'how': 'harness.c10_util.synth(random.Random(seed), **opts) -> BSP(file)'})
         return None
